@@ -300,8 +300,21 @@ let run_crash (input : Sexp.t) (impl : Sexp.t) : Verdict.t =
                  (List.combine mcl clients)
            end)
       | _ -> failwith "prefix") (Sexp.field "prefixes" impl);
+  (* session gauges of the live broker at the end of the history (uint64 on the wire: a wrapped gauge does not fit an
+     OCaml int and is recognised by its length): active + inactive sessions cannot exceed the number of client ids, and
+     no more sessions can have been terminated as taken over than there were CONNECTs *)
+  let gauge_fail =
+    match Sexp.field_opt "gauges" impl with
+    | Some [a; i; _; _; t] ->
+      let small x = String.length (Sexp.atom x) <= 9 in
+      let nconn = List.length (List.filter (fun o -> match o.os_step with SConnect _ -> true | _ -> false) steps) in
+      if not (small a && small i && small t) then Some "session_gauge_wrapped"
+      else if int_of_sx a + int_of_sx i > List.length names then Some "session_gauges_exceed_client_ids"
+      else if int_of_sx t > nconn then Some "more_take_overs_than_connects"
+      else None
+    | _ -> None in
   let agree = agree_journal && !disagree = [] in
-  let oracle = !fails = [] in
+  let oracle = !fails = [] && gauge_fail = None in
   let kf = "-" in   (* no open known finding at this level: 41101f9, 9588927, 892f3ad repaired the three classes *)
   let failnames = List.sort_uniq compare (List.map (fun (_, x) -> fail_name x) !fails) in
   let nsub = List.length (List.filter (fun o -> match o.os_step with SSubscribe _ -> true | _ -> false) steps) in
@@ -314,4 +327,4 @@ let run_crash (input : Sexp.t) (impl : Sexp.t) : Verdict.t =
                     Sexp.L (Sexp.A "journal_keys_differ" :: List.map sx_bytes badkeys);
                     Sexp.L (Sexp.A "prefix_disagree" :: List.map (fun (k, w) -> Sexp.L [sx_int k; Sexp.A w]) (List.rev !disagree));
                     Sexp.L (Sexp.A "oracle_fails" :: List.map (fun (k, x) -> Sexp.L [sx_int k; Sexp.A (fail_name x)]) (List.rev !fails))];
-    why = (match List.rev !fails with [] -> "" | (k, x) :: _ -> Printf.sprintf "prefix%d:%s(%s)" k (fail_name x) (String.concat "+" failnames)) }
+    why = (match List.rev !fails with [] -> (match gauge_fail with Some g -> g | None -> "") | (k, x) :: _ -> Printf.sprintf "prefix%d:%s(%s)" k (fail_name x) (String.concat "+" failnames)) }
